@@ -73,6 +73,10 @@ def make_script(sc: dict, i: int):
                 if is_persistent(typ, a):
                     if not sc.get("sparse_persistent") or rr % 4 != 0:
                         out[(str(e), ATTRS[a])] = token(ident, n, e, a)
+                elif sc.get("late_result") and (e, a) == (1, 2) and typ != "time-based":
+                    # the "result" of a same-time loop: only produced by the last sub-step
+                    if k == settle - 1:
+                        out[(str(e), ATTRS[a])] = token(ident, n, e, a)
                 elif k < settle and (rr % 3 != 0 or "loop_len" in sc):
                     # an event may carry no payload: the value None is still an output
                     out[(str(e), ATTRS[a])] = None if (rr >> 8) % 6 == 0 else token(ident, n, e, a)
@@ -191,6 +195,8 @@ def normalise(sc: dict) -> dict:
         c["src"], c["dst"] = pos[c["src"]], pos[c["dst"]]
     if sc.get("fault"):
         sc["fault"]["sim"] = pos[sc["fault"]["sim"]]
+    if sc.get("slow") is not None:
+        sc["slow"] = pos[sc["slow"]]
     for r in sc.get("extra_async", []):
         r["sim"] = pos[r["sim"]]
         if "target" in r:
@@ -339,6 +345,12 @@ def run_impl(sc: dict, sched_seed: int):
     rng = random.Random(sched_seed)
 
     def chooser(opts):
+        slow = sc.get("slow")
+        if slow is not None and len(opts) > 1 and rng.random() < 0.85:
+            # a slow simulator: its replies are released only when nobody else has one pending (most of the time)
+            fast = [i for i, o in enumerate(opts) if o[0] != f"S{slow}"]
+            if fast:
+                return rng.choice(fast)
         if sc.get("instant"):
             # simulators answer instantly: real time passes only when no reply is pending
             real = [i for i, o in enumerate(opts) if o != ("clock", "tick")]
@@ -570,6 +582,74 @@ def gen_clean_scenario(rng: random.Random, **kw) -> dict:
     return sc
 
 
+def gen_group_mix_scenario(rng: random.Random) -> dict:
+    """A same-time (weak) loop in a group together with simulators that see it from different sides: a monitor INSIDE the
+    group that receives the loop's events (with their sub-step) and is also fed by a time-based simulator outside the group
+    (sub-step 0), the loop itself fed by the outside simulator, an observer outside; events may be dated to the next time.
+    Steps for the same time and a smaller sub-step than the one a simulator is waiting for, from unrelated sources."""
+    g = rng.choice([[0], [0], [0, 0]])
+    k = rng.choice([2, 2, 3])
+    late = rng.random() < 0.5
+    sims = [{"type": "event-based" if late else rng.choice(["event-based", "hybrid"]), "group": list(g), "init_ev": None} for _ in range(k)]
+    if sims[0]["type"] == "event-based":
+        sims[0]["init_ev"] = rng.choice([0, 0, 1])
+    connects = []
+    def conn(a, b, weak=False, ts=0, sattr=3, dattr=1):
+        return {"src": a, "seid": rng.randrange(2), "dst": b, "deid": rng.randrange(2), "sattr": sattr, "dattr": dattr, "ts": ts,
+                "weak": weak, "init": False, "async": False}
+    for i in range(k):
+        connects.append(conn(i, (i + 1) % k, weak=(i == k - 1)))
+    n = k
+    outside = None
+    if rng.random() < 0.8:
+        sims.append({"type": "time-based", "group": [], "init_ev": None})      # outside, slow or fast
+        outside = n
+        n += 1
+        if rng.random() < 0.5:
+            connects.append(conn(outside, 0, sattr=2))                          # feeds the loop
+    if rng.random() < 0.8:
+        sims.append({"type": rng.choice(["event-based", "event-based", "hybrid"]), "group": list(g), "init_ev": None})   # monitor inside the group
+        mon = n
+        n += 1
+        c = conn(rng.randrange(k), mon)
+        if late:
+            c["seid"], c["sattr"] = 1, 2          # the loop's late "result" (see make_script)
+        connects.append(c)
+        if outside is not None and rng.random() < 0.8:
+            connects.append(conn(outside, mon, sattr=2))
+    if rng.random() < 0.3:
+        sims.append({"type": "event-based", "group": list(g[:-1]), "init_ev": None})      # observer one level up
+        connects.append(conn(rng.randrange(k), n))
+        n += 1
+    ml = rng.choice([3, 4, 100])
+    sc = {"sims": sims, "connects": connects, "until": rng.randint(3, 5), "max_loop": ml,
+          "lazy": rng.random() < 0.5, "cache": rng.random() < 0.5, "beh_seed": rng.randrange(10 ** 9),
+          "sparse_persistent": False, "future_outputs": rng.random() < 0.4, "loop_len": rng.choice([2, 2, 3]) if late else rng.choice([1, 2, 2, 3]),
+          "late_result": late}
+    return normalise(sc)
+
+
+def gen_ahead_scenario(rng: random.Random) -> dict:
+    """Producers far ahead of a busy consumer: two or three time-based (or hybrid) producers feeding persistent values into a
+    slow time-based consumer over plain or time-shifted cached connections, no lazy stepping, cache mostly on; a third party
+    may be slow instead.  What the consumer reads must survive everything the others do in the meantime (cache pruning)."""
+    k = rng.choice([2, 3])
+    sims = [{"type": rng.choice(["time-based", "time-based", "hybrid"]), "group": [], "init_ev": None} for _ in range(k)]
+    sims.append({"type": rng.choice(["time-based", "time-based", "hybrid"]), "group": [], "init_ev": None})
+    c = k
+    connects = []
+    for i in range(k):
+        ts = rng.choice([0, 0, 1])
+        connects.append({"src": i, "seid": rng.randrange(2), "dst": c, "deid": i % 2, "sattr": 2, "dattr": 0, "ts": ts, "weak": False,
+                         "init": bool(ts), "async": False})
+    if rng.random() < 0.3:
+        sims.append({"type": "time-based", "group": [], "init_ev": None})          # an unrelated simulator
+    sc = {"sims": sims, "connects": connects, "until": rng.randint(5, 8), "max_loop": 100,
+          "lazy": rng.random() < 0.15, "cache": rng.random() < 0.8, "beh_seed": rng.randrange(10 ** 9),
+          "sparse_persistent": False, "future_outputs": False, "slow": c if rng.random() < 0.8 else rng.randrange(k)}
+    return normalise(sc)
+
+
 def gen_fanin_scenario(rng: random.Random) -> dict:
     """A consumer triggered by two or three independent sources of different speed (a fast one and a slow, sparsely
     producing one that holds the consumer's progress back), optionally with future-dated outputs and a relay; mostly
@@ -602,7 +682,10 @@ def gen_fanin_scenario(rng: random.Random) -> dict:
     sc = {"sims": sims, "connects": connects, "until": rng.randint(4, 8), "max_loop": 100,
           "lazy": rng.random() < 0.35, "cache": rng.random() < 0.5, "beh_seed": rng.randrange(10 ** 9),
           "sparse_persistent": False, "future_outputs": rng.random() < 0.4}
-    return normalise(sc)
+    if rng.random() < 0.5:
+        sc["slow"] = c                      # the consumer answers late: producers run far ahead of it when lazy stepping is off
+    sc = normalise(sc)
+    return sc
 
 
 def gen_loop_scenario(rng: random.Random) -> dict:
